@@ -184,9 +184,8 @@ func searchOps(c mycheck.Col, v []byte, thorough bool) []mycheck.Op {
 	q("ne-literal", "select id from t where c != "+lit)
 	q("ne-literal-ltgt", "select id from t where c <> "+lit)
 	q("nullsafe-eq-literal", "select id from t where c <=> "+lit)
-	if c.App != "int32" {
-		q("like-literal", "select id from t where c like "+lit)
-	}
+	// (c LIKE 'v' is neither an equality nor an inequality search: both proxies forward it as
+	// received when the right side is a value; the statement is outside the property and not run)
 	q("eq-literal-select-c", "select id, c from t where c = "+lit)
 	q("eq-literal-and-plain", "select id from t where c = "+lit+" and plain = 'p1'")
 	q("eq-literal-or-id", "select id from t where c = "+lit+" or id = 2")
